@@ -1,5 +1,346 @@
-import CachedModel
+/-
+  C08  put_or_update changes exactly what was requested, or acts as put.
+
+  Statements about `clientUpsert` of `CachedModel/State.lean` (Layer A: the caller-side program of `put_or_update`
+  runs atomically), for every state that is not shutting down, every client, key, request shape (value / weight /
+  time-to-live / remove-time-to-live in any combination, also ones the builder would refuse) and queue filling.
+
+  Proved for PHYSICALLY PRESENT keys (`s.store.get? k = some e`, which covers every readable key):
+    `C08_fieldwise`, `C08_fieldwise_time_overflow`, `C08_classify`, `C08_expiry_update_table`,
+    `C08_weight_command`, `C08_weight_command_effects`, `C08_explicit_weight_charged(_step)`, `C08_not_lost_partial`;
+  for PHYSICALLY ABSENT keys (`s.store.get? k = none`): `C08_as_put`.
+
+  The property is FALSE of the code for keys that read as absent but are physically present — past their
+  time-to-live and not yet swept, or soft-deleted with the delete still queued: `put_or_update` updates the dead entry
+  in place instead of acting as a put. `C08_counterexample_expired`, `C08_counterexample_soft_deleted` (both reached
+  by a history of API calls from the initial state). Hence `_partial` in `C08_not_lost_partial`.
+-/
+import CachedProofs.Lemmas.Upsert
+import CachedProofs.Properties.C09
 
 namespace Cached
+
+/-- **Field by field, visible on return.** For a physically present key the entry after the call has the same id and
+    deletion flag, the requested value (or the old one), the requested deadline (`now + ttl`, none, or the old one);
+    every other key is untouched, the clock is untouched; and this holds whatever the call returns — an
+    acknowledgement, "parked" at a full queue, a send error (dead worker), or one of the two weight panics, which are
+    raised AFTER the entry was changed. (`hov`: `now + ttl` is representable; otherwise see the next theorem.) -/
+theorem C08_fieldwise (s : State) (c k : Nat) (v : Option Nat) (w : Option Int) (ttl : Option Nat) (rm : Bool)
+    (e : Entry) (hsh : s.shutting = false) (hk : s.store.get? k = some e)
+    (hov : ∀ t, ttl = some t → rm = false → ∃ x, addTime s.now t = some x) :
+    (∃ e', (clientUpsert s c k v w ttl rm).1.store.get? k = some e' ∧ e'.id = e.id ∧ e'.soft = e.soft ∧
+      e'.value = v.getD e.value ∧
+      e'.expiry = (if rm then none else match (generalizing := false) ttl with | some t => some (s.now + t) | none => e.expiry)) ∧
+    (∀ k', k' ≠ k → (clientUpsert s c k v w ttl rm).1.store.get? k' = s.store.get? k') ∧
+    (clientUpsert s c k v w ttl rm).1.now = s.now ∧
+    ((clientUpsert s c k v w ttl rm).2 = .err ∨ (clientUpsert s c k v w ttl rm).2 = .parked ∨
+     (clientUpsert s c k v w ttl rm).2 = .ack s.acks.length .pending ∨
+     (clientUpsert s c k v w ttl rm).2 = .ack s.acks.length .accepted ∨
+     (clientUpsert s c k v w ttl rm).2 = .panic .weightNotPositive ∨
+     (clientUpsert s c k v w ttl rm).2 = .panic .weightOverflow) := by
+  have hov' : ∀ t, ttl = some t → rm = false → addTime s.now t = some (s.now + t) :=
+    fun t h1 h2 => (addTime_some_iff _ _).mp (hov t h1 h2)
+  rw [clientUpsert_present s c k v w ttl rm e _ hsh hk (upsertNewExpiry?_eq s e ttl rm hov')]
+  have hfr := upsertFinish_frame (upsertMid s k e v (upsertExpiry s e ttl rm)) c e.id
+    (upsertWeight s e v w ttl (upsertExpiry s e ttl rm))
+  refine ⟨⟨{ e with expiry := upsertExpiry s e ttl rm, value := v.getD e.value }, ?_, rfl, rfl, rfl, rfl⟩, ?_, ?_, ?_⟩
+  · rw [hfr.1]; simp [upsertMid]
+  · intro k' hk'
+    rw [hfr.1]
+    exact AMap.get?_set_other _ _ (Ne.symm hk')
+  · rw [hfr.2.2.2.1]; rfl
+  · exact upsertFinish_out _ _ _ _
+
+/-- … and when `now + ttl` is not representable the call panics before touching anything. -/
+theorem C08_fieldwise_time_overflow (s : State) (c k : Nat) (v : Option Nat) (w : Option Int) (t : Nat)
+    (e : Entry) (hsh : s.shutting = false) (hk : s.store.get? k = some e) (ha : addTime s.now t = none) :
+    clientUpsert s c k v w (some t) false = (s, .panic .timeOverflow) :=
+  clientUpsert_present_overflow s c k v w (some t) false e hsh hk (by simp [upsertNewExpiry?, ha])
+
+/-- **The expiry index follows the request**: `type_of_expiry_update` of (old deadline, new deadline) decides
+    whether the index entry of the key's id is added, deleted, moved or left alone. -/
+theorem C08_classify (s : State) (c k : Nat) (v : Option Nat) (w : Option Int) (ttl : Option Nat) (rm : Bool)
+    (e : Entry) (hsh : s.shutting = false) (hk : s.store.get? k = some e)
+    (hov : ∀ t, ttl = some t → rm = false → ∃ x, addTime s.now t = some x) :
+    (clientUpsert s c k v w ttl rm).1.ttl =
+      (match typeOfExpiryUpdate e.expiry
+          (if rm then none else match (generalizing := false) ttl with | some t => some (s.now + t) | none => e.expiry) with
+        | .added n => s.ttl.set (shardOf s.cfg n, e.id) n
+        | .deleted old => s.ttl.del (shardOf s.cfg old, e.id)
+        | .updated old n => (s.ttl.del (shardOf s.cfg old, e.id)).set (shardOf s.cfg n, e.id) n
+        | .nothing => s.ttl) := by
+  have hov' : ∀ t, ttl = some t → rm = false → addTime s.now t = some (s.now + t) :=
+    fun t h1 h2 => (addTime_some_iff _ _).mp (hov t h1 h2)
+  rw [clientUpsert_present s c k v w ttl rm e _ hsh hk (upsertNewExpiry?_eq s e ttl rm hov')]
+  rw [(upsertFinish_frame _ _ _ _).2.1]
+  rfl
+
+/-- the full table of `type_of_expiry_update` (store/mod.rs:65-81) -/
+theorem C08_expiry_update_table (a b : Nat) :
+    typeOfExpiryUpdate none none = .nothing ∧
+    typeOfExpiryUpdate none (some b) = .added b ∧
+    typeOfExpiryUpdate (some a) none = .deleted a ∧
+    (a ≠ b → typeOfExpiryUpdate (some a) (some b) = .updated a b) ∧
+    typeOfExpiryUpdate (some a) (some a) = .nothing := by
+  refine ⟨rfl, rfl, rfl, ?_, ?_⟩
+  · intro h; simp [typeOfExpiryUpdate, h]
+  · simp [typeOfExpiryUpdate]
+
+/-- **The weight command.** For a physically present key, with `mid` the state right after the in-place update
+    (`upsertMid`: only `store` at `k` and the expiry index differ from `s`): the weight is the explicit one, else
+    the weight function of the new value (with the TTL surcharge iff a TTL is part of the request), else the charged
+    weight `± ttlEntry` when a TTL is added to a key without / removed from a key with one; that weight is checked
+    (`i64`, `> 0` — panics in the caller, after the update) and sent as `UpdateWeight(id, weight)`; when no rule
+    applies the call is answered Accepted on the spot and nothing is sent. -/
+theorem C08_weight_command (s : State) (c k : Nat) (v : Option Nat) (w : Option Int) (ttl : Option Nat) (rm : Bool)
+    (e : Entry) (hsh : s.shutting = false) (hk : s.store.get? k = some e)
+    (hov : ∀ t, ttl = some t → rm = false → ∃ x, addTime s.now t = some x) :
+    let existing : Int := match s.adm.kw.get? e.id with | some wk => wk.weight | none => 0
+    let ne : Option Nat := if rm then none else match (generalizing := false) ttl with | some t => some (s.now + t) | none => e.expiry
+    let mid : State := upsertMid s k e v ne
+    clientUpsert s c k v w ttl rm =
+      (match (match w with
+              | some x => some x
+              | none =>
+                match v with
+                | some val => some (s.cfg.weightOf val ttl.isSome)
+                | none =>
+                  match e.expiry, ne with
+                  | none, some _ => some (existing + s.cfg.ttlEntry)
+                  | some _, none => some (existing - s.cfg.ttlEntry)
+                  | _, _ => none) with
+        | some weight =>
+          if !inI64 weight then (mid, .panic .weightOverflow)
+          else if weight ≤ 0 then (mid, .panic .weightNotPositive)
+          else sendCmd mid c (.updateWeight e.id weight)
+        | none => spotAck mid .accepted) := by
+  have hov' : ∀ t, ttl = some t → rm = false → addTime s.now t = some (s.now + t) :=
+    fun t h1 h2 => (addTime_some_iff _ _).mp (hov t h1 h2)
+  exact clientUpsert_present s c k v w ttl rm e _ hsh hk (upsertNewExpiry?_eq s e ttl rm hov')
+
+/-- what "sent" and "answered on the spot" mean (`mid` has the queue, acknowledgements and parked calls of `s`):
+    a send appends the command with a fresh pending acknowledgement, or parks the caller with exactly that command
+    when the queue is full, or fails — changing nothing — when the worker is dead; the on-the-spot answer appends a
+    completed acknowledgement and leaves queue and parked calls alone. -/
+theorem C08_weight_command_effects (mid : State) (c id : Nat) (weight : Int) :
+    ((mid.worker = .dead ∧ sendCmd mid c (.updateWeight id weight) = (mid, .err)) ∨
+     (mid.worker ≠ .dead ∧ mid.queue.length ≥ mid.cfg.cmdCap ∧
+       sendCmd mid c (.updateWeight id weight) =
+         ({ mid with pend := mid.pend.set c (.send (.updateWeight id weight)) }, .parked)) ∨
+     (mid.worker ≠ .dead ∧ mid.queue.length < mid.cfg.cmdCap ∧
+       sendCmd mid c (.updateWeight id weight) =
+         ({ mid with queue := mid.queue ++ [(.updateWeight id weight, some mid.acks.length)],
+                     acks := mid.acks ++ [.pending] }, .ack mid.acks.length .pending))) ∧
+    spotAck mid .accepted = ({ mid with acks := mid.acks ++ [.accepted] }, .ack mid.acks.length .accepted) ∧
+    (∀ (s : State) (k : Nat) (e : Entry) (v ne : Option Nat),
+      (upsertMid s k e v ne).queue = s.queue ∧ (upsertMid s k e v ne).acks = s.acks ∧
+      (upsertMid s k e v ne).pend = s.pend ∧ (upsertMid s k e v ne).adm = s.adm ∧
+      (upsertMid s k e v ne).worker = s.worker ∧ (upsertMid s k e v ne).cfg = s.cfg) :=
+  ⟨sendCmd_cases mid c _, rfl, fun _ _ _ _ _ => ⟨rfl, rfl, rfl, rfl, rfl, rfl⟩⟩
+
+/-- **The sent weight becomes the charged weight.** The worker's `UpdateWeight(id, w)` for a charged id (absent an
+    `i64` overflow, see C17) answers Accepted, sets the id's weight to `w`, moves the total by the difference and
+    touches no other id and no stored entry; for an id that is not charged (evicted or deleted meanwhile) it answers
+    Accepted and changes nothing. -/
+theorem C08_explicit_weight_charged (s : State) (id : Nat) (w : Int) :
+    (∀ wk, s.adm.kw.get? id = some wk → inI64 (w - wk.weight) = true → inI64 (s.adm.used + (w - wk.weight)) = true →
+      ∃ s', workerUpdateWeight s id w = .done s' .accepted none [] [] ∧
+        s'.adm.kw.get? id = some { wk with weight := w } ∧
+        s'.adm.used = s.adm.used + (w - wk.weight) ∧
+        (∀ id', id' ≠ id → s'.adm.kw.get? id' = s.adm.kw.get? id') ∧
+        s'.store = s.store ∧ s'.ttl = s.ttl ∧ s'.adm.max = s.adm.max) ∧
+    (s.adm.kw.get? id = none → workerUpdateWeight s id w = .done s .accepted none [] []) := by
+  constructor
+  · intro wk hk h1 h2
+    refine ⟨{ s with adm := { s.adm with used := s.adm.used + (w - wk.weight), kw := s.adm.kw.set id { wk with weight := w } },
+                     stats := updateWeightStats { s.stats with keysUpdated := s.stats.keysUpdated + 1 } w wk.weight },
+      ?_, ?_, rfl, ?_, rfl, rfl, rfl⟩
+    · simp only [workerUpdateWeight, hk, h1, h2, Bool.not_true, Bool.or_self, Bool.false_eq_true, if_false]
+    · simp
+    · intro id' hne
+      exact AMap.get?_set_other _ _ (Ne.symm hne)
+  · intro hk
+    simp [workerUpdateWeight, hk]
+
+/-- … "once acknowledged": the worker step that executes the command completes its acknowledgement with Accepted. -/
+theorem C08_explicit_weight_charged_step (s : State) (o : Oracle) (id h : Nat) (w : Int) (q : List (Cmd × Option Nat))
+    (wk : WKey) (hrun : s.worker = .running) (hq : s.queue = (.updateWeight id w, some h) :: q)
+    (hk : s.adm.kw.get? id = some wk) (h1 : inI64 (w - wk.weight) = true)
+    (h2 : inI64 (s.adm.used + (w - wk.weight)) = true) :
+    ∃ s', workerStep s o = .ok (s', .worked "UpdateWeight" .accepted none [] [], o) ∧
+      s'.acks = s.acks.set h .accepted ∧ s'.queue = q ∧
+      s'.adm.kw.get? id = some { wk with weight := w } ∧ s'.adm.used = s.adm.used + (w - wk.weight) ∧
+      s'.store = s.store := by
+  have hk0 : ({ s with queue := q } : State).adm.kw.get? id = some wk := hk
+  obtain ⟨s1, hs1, hkw, hused, _, hstore, _, _⟩ :=
+    (C08_explicit_weight_charged { s with queue := q } id w).1 wk hk0 h1 h2
+  have hacks : s1.acks = s.acks ∧ s1.queue = q := by
+    simp only [workerUpdateWeight, hk0, h1, h2, Bool.not_true, Bool.or_self, Bool.false_eq_true, if_false,
+      Exec.done.injEq, and_true] at hs1
+    subst hs1; exact ⟨rfl, rfl⟩
+  refine ⟨{ s1 with acks := setAck s1.acks (some h) .accepted }, ?_, ?_, hacks.2, hkw, hused, hstore⟩
+  · rw [workerStep_running s o _ _ _ hrun hq]
+    simp only [hs1, workerFinish]
+  · simp [setAck, hacks.1]
+
+/-- **Acts as put.** For a physically absent key an upsert with a value IS the corresponding put — the same function
+    value, hence the same id, command, acknowledgement and resulting state — with the explicit weight, else the
+    weight function's; without explicit weight it is `put` / `put_with_ttl`. Without a value it is the documented
+    precondition panic. (`remove_time_to_live` is ignored.) -/
+theorem C08_as_put (s : State) (c k : Nat) (w : Option Int) (ttl : Option Nat) (rm : Bool)
+    (hsh : s.shutting = false) (hk : s.store.get? k = none) :
+    (∀ val, clientUpsert s c k (some val) w ttl rm =
+      (match ttl with
+        | some t => clientPutWTtl s c k val (w.getD (s.cfg.weightOf val ttl.isSome)) t
+        | none => clientPutW s c k val (w.getD (s.cfg.weightOf val ttl.isSome)))) ∧
+    (∀ val, clientUpsert s c k (some val) none none rm = clientPut s c k val) ∧
+    (∀ val t, clientUpsert s c k (some val) none (some t) rm = clientPutTtl s c k val t) ∧
+    clientUpsert s c k none w ttl rm = (s, .panic .upsertValueMissing) := by
+  have hc : s.store.contains k = false := by simp [AMap.contains, hk]
+  refine ⟨?_, ?_, ?_, ?_⟩
+  · intro val
+    cases ttl <;> cases w <;>
+      simp [clientUpsert, clientPutW, clientPutWTtl, clientPutChecked, hsh, hk, hc]
+  · intro val
+    simp only [clientUpsert, clientPut, clientPutChecked, hsh, hk, hc, Option.map_some, Option.isSome_none,
+      Bool.false_eq_true, if_false]
+  · intro val t
+    simp [clientUpsert, clientPutTtl, clientPutChecked, hsh, hk, hc]
+  · cases w <;> simp [clientUpsert, hsh, hk]
+
+/-- **Not lost (readable keys).** After an upsert of a readable key every read that completes returns the written
+    value (the old value if none was given) — whatever the call itself returned, and before the worker has seen the
+    weight command. `_partial`: restricted to entries that are alive; for dead entries it is false (below). -/
+theorem C08_not_lost_partial (s : State) (c k : Nat) (v : Option Nat) (w : Option Int) (ttl : Option Nat) (rm : Bool)
+    (e : Entry) (hsh : s.shutting = false) (hk : s.store.get? k = some e) (halive : e.alive s.now = true)
+    (hov : ∀ t, ttl = some t → rm = false → ∃ x, addTime s.now t = some x)
+    (o o' : Oracle) (s'' : State) (r : Option Nat)
+    (hr : readKey (clientUpsert s c k v w ttl rm).1 k o = .ok (s'', r, o')) : r = some (v.getD e.value) := by
+  obtain ⟨⟨e', hget, _, hsoft, hval, hexp⟩, _, hnow, _⟩ := C08_fieldwise s c k v w ttl rm e hsh hk hov
+  have hs : e.soft = false := by
+    unfold Entry.alive at halive
+    cases h : e.soft <;> simp [h] at halive ⊢
+  have hold : e.expiry = none ∨ ∃ t, e.expiry = some t ∧ s.now ≤ t := by
+    unfold Entry.alive at halive
+    simp only [hs, Bool.false_eq_true, if_false] at halive
+    cases h : e.expiry with
+    | none => exact Or.inl rfl
+    | some t =>
+      simp only [h, Bool.not_eq_eq_eq_not, Bool.not_true, decide_eq_false_iff_not] at halive
+      exact Or.inr ⟨t, rfl, by omega⟩
+  have hlive : e'.expiry = none ∨ ∃ t, e'.expiry = some t ∧ (clientUpsert s c k v w ttl rm).1.now ≤ t := by
+    rw [hnow, hexp]
+    cases rm with
+    | true => exact Or.inl rfl
+    | false =>
+      cases ttl with
+      | none => simpa using hold
+      | some t => exact Or.inr ⟨s.now + t, by simp, by omega⟩
+  have := C09_not_hidden _ s'' k o o' e' r hget (hsoft.trans hs) hlive hr
+  rw [this, hval]
+
+/-! ### Counterexamples: dead entries swallow the upsert -/
+
+def c08Cfg : Cfg := { maxWeight := 100, shards := 2, cmdCap := 4, poolSize := 1, bufSize := 2, counters := 2 }
+
+/-- the state after `put_with_weight_and_ttl(k=1, v=10, w=5, ttl 1 s)` at second 3, executed, clock moved to second 5 -/
+def c08Expired : State :=
+  { (State.init c08Cfg 5000000000 [1, 2, 3, 4]) with
+    store := [(1, { value := 10, id := 1, expiry := some 4000000000, soft := false })],
+    adm := { max := 100, used := 5, kw := [(1, { key := 1, hash := 1, weight := 5 })] },
+    ttl := [((0, 1), 4000000000)], nextId := 2, acks := [.accepted],
+    stats := { keysAdded := 1, weightAdded := 5 } }
+
+/-- the state after the same put, executed, and `delete(k=1)` sent but not yet executed -/
+def c08SoftDeleted : State :=
+  { (State.init c08Cfg 3000000000 [1, 2, 3, 4]) with
+    store := [(1, { value := 10, id := 1, expiry := some 4000000000, soft := true })],
+    adm := { max := 100, used := 5, kw := [(1, { key := 1, hash := 1, weight := 5 })] },
+    ttl := [((0, 1), 4000000000)], nextId := 2, acks := [.accepted, .pending], queue := [(.delete 1, some 1)],
+    stats := { keysAdded := 1, weightAdded := 5 } }
+
+/-- **Expired, not yet swept.** History: `put_with_weight_and_ttl(k=1, v=10, w=5, ttl 1 s)` at second 3, executed;
+    clock to second 5 (the shard of second 4 is not the one swept at second 5). The key reads as absent.
+    `put_or_update(k=1, value 11)` is queued and acknowledged Accepted by the worker; the dead entry now holds 11,
+    and every read still reports absent: the accepted upsert is silently lost. It did not act as the corresponding
+    put either (that one is refused with KeyAlreadyExists, C07). And a TTL-only upsert — which on an absent key is
+    the documented precondition panic — is answered Accepted on the spot and makes the expired value 10 readable
+    again (revival that bypasses admission). -/
+theorem C08_counterexample_expired :
+    runEvents (State.init c08Cfg 3000000000 [1, 2, 3, 4])
+      [.putWTtl 0 1 10 5 1000000000, .worker, .advance 2000000000] = .ok c08Expired ∧
+    c08Expired.shutting = false ∧
+    (∀ o, readKey c08Expired 1 o =
+      .ok ({ c08Expired with stats := { c08Expired.stats with misses := c08Expired.stats.misses + 1 } }, none, o)) ∧
+    (∃ s1 s2, step c08Expired (.upsert 0 1 (some 11) none none false) {} = .ok (s1, .ack 1 .pending, {}) ∧
+      step s1 .worker {} = .ok (s2, .worked "UpdateWeight" .accepted none [] [], {}) ∧
+      s2.acks[1]? = some .accepted ∧
+      s2.store.get? 1 = some { value := 11, id := 1, expiry := some 4000000000, soft := false } ∧
+      (∀ o, readKey s2 1 o = .ok ({ s2 with stats := { s2.stats with misses := s2.stats.misses + 1 } }, none, o))) ∧
+    (clientPutW c08Expired 0 1 11 1).2 = .ack 1 (.rejected .keyAlreadyExists) ∧
+    (∃ s3, clientUpsert c08Expired 0 1 none none (some 1000000000) false = (s3, .ack 1 .accepted) ∧
+      ∀ o s4 r o', readKey s3 1 o = .ok (s4, r, o') → r = some 10) := by
+  refine ⟨rfl, rfl, fun _ => rfl, ⟨_, _, rfl, rfl, rfl, rfl, fun _ => rfl⟩, rfl, _, rfl, ?_⟩
+  intro o s4 r o' hr
+  exact C09_not_hidden _ s4 1 o o' _ r rfl rfl (Or.inr ⟨6000000000, rfl, by decide⟩) hr
+
+/-- **Soft-deleted, delete still queued.** History: the same put, executed; `delete(k=1)` sent but not yet executed.
+    The key reads as absent. `put_or_update(k=1, value 11)` is queued behind the delete; the worker executes the
+    delete, then acknowledges the upsert's command Accepted (a no-op: the id is no longer charged); the key is gone:
+    accepted and silently lost. A TTL-only upsert is even answered Accepted on the spot, and the key still reads as
+    absent. -/
+theorem C08_counterexample_soft_deleted :
+    runEvents (State.init c08Cfg 3000000000 [1, 2, 3, 4])
+      [.putWTtl 0 1 10 5 1000000000, .worker, .delete 0 1] = .ok c08SoftDeleted ∧
+    c08SoftDeleted.shutting = false ∧
+    (∀ o, readKey c08SoftDeleted 1 o =
+      .ok ({ c08SoftDeleted with stats := { c08SoftDeleted.stats with misses := c08SoftDeleted.stats.misses + 1 } },
+           none, o)) ∧
+    (∃ s1 s2 s3, step c08SoftDeleted (.upsert 0 1 (some 11) none none false) {} = .ok (s1, .ack 2 .pending, {}) ∧
+      step s1 .worker {} = .ok (s2, .worked "Delete" .accepted none [] [], {}) ∧
+      step s2 .worker {} = .ok (s3, .worked "UpdateWeight" .accepted none [] [], {}) ∧
+      s3.acks[2]? = some .accepted ∧ s3.store.get? 1 = none ∧
+      (∀ o, readKey s3 1 o = .ok ({ s3 with stats := { s3.stats with misses := s3.stats.misses + 1 } }, none, o))) ∧
+    (∃ s4, clientUpsert c08SoftDeleted 0 1 none none (some 5000000000) false = (s4, .ack 2 .accepted) ∧
+      (∀ o, readKey s4 1 o = .ok ({ s4 with stats := { s4.stats with misses := s4.stats.misses + 1 } }, none, o))) :=
+  ⟨rfl, rfl, fun _ => rfl, ⟨_, _, _, rfl, rfl, rfl, rfl, rfl, fun _ => rfl⟩, _, rfl, fun _ => rfl⟩
+
+/-! ### Non-vacuity -/
+
+/-- a readable key with a time-to-live, charged 29, in a running cache: the hypotheses of `C08_fieldwise`,
+    `C08_classify`, `C08_weight_command`, `C08_not_lost_partial` hold for it (any `ttl`, here 2 s), key 2 satisfies
+    those of `C08_as_put`, and id 1 with `w = 7` those of `C08_explicit_weight_charged`. -/
+def c08Live : State :=
+  { (State.init c08Cfg 3000000000 [1, 2, 3, 4]) with
+    store := [(1, { value := 10, id := 1, expiry := some 4000000000, soft := false })],
+    adm := { max := 100, used := 29, kw := [(1, { key := 1, hash := 1, weight := 29 })] },
+    ttl := [((0, 1), 4000000000)], nextId := 2, acks := [.accepted] }
+
+example : c08Live.shutting = false ∧
+    c08Live.store.get? 1 = some { value := 10, id := 1, expiry := some 4000000000, soft := false } ∧
+    ({ value := 10, id := 1, expiry := some 4000000000, soft := false } : Entry).alive c08Live.now = true ∧
+    addTime c08Live.now 2000000000 = some 5000000000 ∧ c08Live.store.get? 2 = none ∧
+    c08Live.adm.kw.get? 1 = some { key := 1, hash := 1, weight := 29 } ∧
+    inI64 (7 - 29) = true ∧ inI64 (c08Live.adm.used + (7 - 29)) = true := by decide
+
+/-- the state is the one reached by the put of the counterexamples (with weight 29 = 5 + the TTL surcharge) -/
+example : ∃ s, runEvents (State.init c08Cfg 3000000000 [1, 2, 3, 4]) [.putWTtl 0 1 10 29 1000000000, .worker] = .ok s ∧
+    s.store = c08Live.store ∧ s.ttl = c08Live.ttl ∧ s.adm.kw = c08Live.adm.kw ∧ s.adm.used = c08Live.adm.used ∧
+    s.acks = c08Live.acks ∧ s.nextId = c08Live.nextId := ⟨_, rfl, rfl, rfl, rfl, rfl, rfl, rfl⟩
+
+/-- the four shapes of a request on it: value only (queued `UpdateWeight(1, 1)`), TTL removal (queued
+    `UpdateWeight(1, 29 - 24)`), TTL change only (Accepted on the spot), explicit weight -/
+example :
+    (clientUpsert c08Live 0 1 (some 11) none none false).2 = .ack 1 .pending ∧
+    (clientUpsert c08Live 0 1 (some 11) none none false).1.queue = [(.updateWeight 1 1, some 1)] ∧
+    (clientUpsert c08Live 0 1 none none none true).1.queue = [(.updateWeight 1 5, some 1)] ∧
+    (clientUpsert c08Live 0 1 none none none true).1.ttl = [] ∧
+    (clientUpsert c08Live 0 1 none none (some 2000000000) false).2 = .ack 1 .accepted ∧
+    (clientUpsert c08Live 0 1 none none (some 2000000000) false).1.ttl = [((1, 1), 5000000000)] ∧
+    (clientUpsert c08Live 0 1 none (some 7) none false).1.queue = [(.updateWeight 1 7, some 1)] := by
+  refine ⟨rfl, rfl, rfl, rfl, rfl, rfl, rfl⟩
+
+/-- `C08_fieldwise_time_overflow` is not vacuous -/
+example : addTime c08Live.now 18446744073709551615999999999 = none := by decide
 
 end Cached
